@@ -495,6 +495,14 @@ def cases(tier, seed):
                                         add(cl, base, ic)
                                     if k == 0 and sub == 0:
                                         add("ppt.frame", base, icl("ppt/" + form, da, db, field, "frame", sx))
+                        if n == 3 and (da, db) == (2, 2) and sd == seeds[0]:
+                            # a state that is never prepared (exact zero prior, not last): the value is that of the remaining ensemble (dual form;
+                            # the primal form breaks down in cvxopt when a prior is exactly zero)
+                            for pk in ("zero-first", "zero-middle"):
+                                i += 1
+                                base = dict(da=da, db=db, n=n, field=field, form="dual", sub=pick([0, 1], i), solver=solver, rep=pick(reps3, i), prior=pk, kind="pure", rank=1, seed=sd + i, phases=True)
+                                for cl in PPT_GENERIC:
+                                    add(cl, base, icl("ppt/dual", da, db, field, "zero-prior", sx))
                         i += 1
                         base = dict(da=da, db=db, n=n, field=field, solver=solver, rep=pick(reps3, i), prior=pick(priors, i), kind=pick(["pure", "pure", "mixed"], i), rank=2, seed=sd + i, phases=True, sub=pick([0, 1], i))
                         if not skip("primal", da, db, n):
